@@ -66,7 +66,11 @@ CLAIM = dict(
          'few-bit entries around 2^-531 whose pairwise products are subnormal; exact-threshold family of accuracy: tensor pairs '
          'whose exact exponent gap floor(log2|Y1-Y2|^2) - floor(log2|Y2|^2) is 998..1003, i.e. exactly at and one half-step around '
          'the documented +-500, where the search demands the saturation value iff the gap exceeds 1000 and the true distance '
-         'otherwise - sharp whenever neither squared norm is within 2^-30 of a power of two). KEPT OUT (not covered by the property text, which '
+         'otherwise - sharp whenever neither squared norm is within 2^-30 of a power of two); truncate over all four combinations '
+         'use_stab x is_eigh on graded tensors (singular values 1, c1 just above e, c2 just below the per-step threshold) at per-core '
+         'scales 2^0 / 2^+-300 / 2^+-400: error <= e by exact distance, ranks equal to the unstabilised call at scale 1 (the sweep '
+         'itself is the object of C02 and is not modelled here; the truncate_stab stream adds these tensors and the rank comparison). '
+         'KEPT OUT (not covered by the property text, which '
          'starts at d = 2 and speaks of float tensors): accuracy for d = 1 (act_two.sub of one-core tensors is not a TT-tensor and '
          'accuracy raises ValueError); int64 cores with entries above 2^5 (numpy integer products wrap around silently beyond 2^31, '
          'also in the plain mul_scalar). KNOWN FINDING (key C16/entries-beyond-sqrt-range), generators of the other families stay clear of it: cores whose '
@@ -425,6 +429,30 @@ def gen_float(rng, d, mode, rmax=2, nmax=2, like=None, n0=None, lo=-1.0, same_sc
         G = Core(r1, n, r2, arr=A)
         G.sc = sc
         Y.append(G)
+    return Y
+
+
+def gen_graded(rng, d, n, e, c1f, c2f):
+    """Y = T0 + c1 T1 + c2 T2 with mutually orthogonal unit-norm rank-1 tensors T_i (every unfolding has the singular values
+    1, c1, c2): c1 = c1f * e lies above the requested accuracy (dropping it costs more than e), c2 = c2f * e / sqrt(d-1) lies
+    below the per-step threshold (it must go).  TT-ranks 3, to be rounded to 2.  Per-core scale 1."""
+    c = [1.0, c1f * e, c2f * e / math.sqrt(max(d - 1, 1))]
+    Y = []
+    for j in range(d):
+        Q, _ = np.linalg.qr(np.array([[rng.gauss(0, 1) for _ in range(3)] for _ in range(n)]))
+        if j == 0:
+            A = np.zeros((1, n, 3))
+            for i in range(3):
+                A[0, :, i] = c[i] * Q[:, i]
+        elif j == d - 1:
+            A = np.zeros((3, n, 1))
+            for i in range(3):
+                A[i, :, 0] = Q[:, i]
+        else:
+            A = np.zeros((3, n, 3))
+            for i in range(3):
+                A[i, :, i] = Q[:, i]
+        Y.append(Core(A.shape[0], n, A.shape[2], arr=A))
     return Y
 
 
@@ -1223,11 +1251,23 @@ def corr_truncate(R, tn, rng, th):
         for mode in ['up', 'down', 'mixed']:
             plan.append((d, mode, rng.choice([1e-2, 1e-5, 1e-8]), rng.random() < 0.7))
     plan += [(3, 'tiny', 1e-6, True), (3, 'big', 1e-6, True), (4, 'zero', 1e-6, False), (6, 'unit', 0.3, True)]
+    # graded tensors (gen_graded) at per-core scales 2^0 / 2^+-300 / 2^+-400, both SVD modes: besides the replay, the ranks
+    # must be those of the unstabilised default call at scale 1 (the sweep sees the same mantissas: C16_truncate_stab)
+    plan += [(d, ('graded', k), rng.choice([1e-2, 1e-3]), ie) for d, k in [(2, 0), (2, 400), (3, -400), (4, 300), (6, -300)]
+             for ie in (True, False)]
     ditems, fterms, meta = [], [], []
     dist = dict(d=[], eigh=0, skeleton=0, p_range=[0, 0], rank_reduced=0, log2_ulp_skipped=0, root_worst=0.0)
     bad = []
     for d, mode, e, is_eigh in plan:
-        Y = gen_any(rng, d, mode, rmax=3 if d <= 9 else 2)
+        want_ranks = None
+        if isinstance(mode, tuple):
+            Y0 = gen_graded(rng, d, rng.choice([3, 5, 8]), e, rng.choice([1.2, 1.5, 2.0]), rng.choice([0.3, 0.6]))
+            Y = scaled(Y0, [mode[1]] * d)
+            with np.errstate(all='ignore'):
+                want_ranks = [G.shape[2] for G in tn.truncate(tt_np(Y0), e)]
+            dist['graded'] = dist.get('graded', 0) + 1
+        else:
+            Y = gen_any(rng, d, mode, rmax=3 if d <= 9 else 2)
         inp = ['truncate', tt_desc(Y), e, is_eigh]
         with Rec(tn) as rec, TruncSpy(tn, rec) as spy:
             try:
@@ -1246,6 +1286,9 @@ def corr_truncate(R, tn, rng, th):
                             why=err or ('non-finite cores' if len(rec.orth_out) == 1 else
                                         f'truncate(use_stab=True) called orthogonalize(.., True) {len(rec.orth_out)} times')))
             continue
+        if want_ranks is not None and [G.shape[2] for G in W] != want_ranks:
+            bad.append(dict(stream='truncate_stab', input=inp, why=f'ranks {[G.shape[2] for G in W]} of truncate(use_stab=True, '
+                            f'is_eigh={is_eigh}) differ from the ranks {want_ranks} of the unstabilised call at scale 1'))
         Zs, p = rec.orth_out[0]
         W0 = spy.pre()
         if len(W0) != d:
@@ -1952,7 +1995,7 @@ def sqrt_range_family(kind, inp):
     entry with |floor(log2)| > 511, or (b) two cores that get multiplied before any rescaling - adjacent cores of one tensor
     (orthogonalize / truncate: R-factor times next core, sizes included) or the cores at the same position of the two arguments
     (mul_scalar / accuracy; the same tensor twice for norm) - have entries whose product leaves [2^-1022, 2^1021]"""
-    slots = dict(mul_scalar=[0, 1], norm=[0], accuracy=[0, 1], orth=[0], truncate=[0], shift=[0, 1], forms=[0, 1], history=[0, 1]).get(kind)
+    slots = dict(mul_scalar=[0, 1], norm=[0], accuracy=[0, 1], orth=[0], truncate=[0], truncate4=[0], shift=[0, 1], forms=[0, 1], history=[0, 1]).get(kind)
     if not slots:
         return False
     try:
@@ -1975,9 +2018,38 @@ def sqrt_range_family(kind, inp):
     return False
 
 
-CHECKS = dict(core_stab=chk_core_stab, mul_scalar=chk_mul_scalar, norm=chk_norm, accuracy=chk_accuracy, shift=chk_shift,
+def chk_truncate4(tn, inp):
+    """truncate over all four combinations use_stab x is_eigh on a tensor with a component just above the requested accuracy
+    and one just below the per-step threshold: at scale 1 all four, and the two stabilised ones on exact power-of-two
+    rescalings of the cores (shift lists).  Every result: finite, within e of the (rescaled) tensor by exact big-integer
+    distance, ranks equal to those of the unstabilised default call at scale 1."""
+    Y, e, shifts = tts(inp[0]), float(inp[1]), inp[2]
+    ok, W0 = call(tn.truncate, tt_np(Y), e)
+    if not ok or not shapes_ok(W0, Y):
+        return F('truncate(Y, e) raised or returned malformed cores', repr(W0)[:80])
+    ranks = [G.shape[2] for G in W0]
+    runs = [(None, us, ie) for us in (False, True) for ie in (True, False)]
+    runs += [(sh, True, ie) for sh in shifts for ie in (True, False)]
+    for sh, us, ie in runs:
+        Ys = Y if sh is None else scaled(Y, sh)
+        tag = f'truncate(use_stab={us}, is_eigh={ie}) at per-core scales 2^{sorted(set(sh)) if sh else [0]}'
+        ok, W = call(tn.truncate, tt_np(Ys), e, use_stab=us, is_eigh=ie)
+        if not ok:
+            return F(tag + ' raised ' + repr(W)[:80])
+        if not (isinstance(W, list) and shapes_ok(W, Ys)) or not all_finite(W):
+            return F(tag + ': malformed or non-finite cores')
+        rel, _ = exact_rel_dist(W, 0, ints_of(Ys))
+        if rel is None or not rel <= e * (1 + 1e-6) + 2e-7:
+            return F(tag + ': the result is farther from Y than the requested accuracy', rel, e,
+                     ranks=[G.shape[2] for G in W], ranks_expected=ranks)
+        if [G.shape[2] for G in W] != ranks:
+            return F(tag + ': ranks differ from those of the unstabilised default call at scale 1', [G.shape[2] for G in W], ranks)
+    return None
+
+
+CHECKS = dict(truncate4=chk_truncate4, core_stab=chk_core_stab, mul_scalar=chk_mul_scalar, norm=chk_norm, accuracy=chk_accuracy, shift=chk_shift,
               orth=chk_orth, truncate=chk_truncate, forms=chk_forms, history=chk_history)
-TENSOR_SLOTS = dict(mul_scalar=[0, 1], norm=[0], accuracy=[0, 1], truncate=[0])
+TENSOR_SLOTS = dict(mul_scalar=[0, 1], norm=[0], accuracy=[0, 1], truncate=[0])     # truncate4: not shrunk (needs its grading)
 
 
 def _run(tn, kind, inp, key=None):
@@ -2235,6 +2307,13 @@ def search_jobs(rng, th, deep):
                   if not (deep or th) else [0, d // 5, (3 * d) // 5, (4 * d) // 5]):
             Ym = scaled(Y, [1 if j < m else 0 for j in range(d)])
             J.append(('truncate', [tt_desc(Ym), 1e-6, None, True, not (th and m == 0)]))
+    # all four flag combinations on graded tensors (a component at 1.2e .. 2e, one at 0.3 .. 0.6 of the per-step threshold),
+    # d = 2 .. 10, mode sizes 3 .. 9, per-core scales 2^0, 2^+-300, 2^+-400 and mixed
+    for d in ([2, 3, 4, 6] if not (deep or th) else [2, 2, 3, 4, 5, 7, 10]):
+        e = rng.choice([1e-2, 1e-3, 1e-4])
+        Y = gen_graded(rng, d, rng.choice([3, 5, 8, 9]), e, rng.choice([1.2, 1.5, 2.0]), rng.choice([0.3, 0.6]))
+        shifts = [[k] * d for k in rng.sample([300, -300, 400, -400], 2)] + [[rng.choice([-400, -300, 0, 300, 400]) for _ in range(d)]]
+        J.append(('truncate4', [tt_desc(Y), e, shifts]))
     J.append(('truncate', [tt_desc(gen_float(rng, 5, 'mixed', rmax=3)), 1e-8, 1, True]))
     J.append(('truncate', [tt_desc(with_zero_core(gen_float(rng, 4, 'mixed'), 2)), 1e-3, None, True]))
     return J
